@@ -228,9 +228,18 @@ def install(eng):
 
     eng.atomic_cell = atomic_cell
 
+    def traced(call, op, c, *exprs):
+        """atomic-trace mode (C10): the value read is a fresh register, the step is recorded with its operand expressions;
+        the cell's content is NOT tracked (another thread may have changed it)."""
+        rd = eng.fresh(f"rd.{op}")
+        call.m.event("atomic", op, c.name, rd, tuple(exprs))
+        return Int(rd, 64, False)
+
     @on(r"Atomic(Usize)?::load$")
     def _at_load(call):
         c = atomic_cell(call, call.argv[0])
+        if getattr(eng, "atomic_trace", False):
+            return traced(call, "load", c)
         v = eng.force(c, "int")
         call.m.event("atomic", "load", c.name)
         return v
@@ -238,17 +247,60 @@ def install(eng):
     @on(r"Atomic(Usize)?::store$")
     def _at_store(call):
         c = atomic_cell(call, call.argv[0])
+        if getattr(eng, "atomic_trace", False):
+            traced(call, "store", c, call.argv[1].e)
+            return UNIT
         c.val = call.argv[1]
         call.m.event("atomic", "store", c.name)
         return UNIT
 
-    @on(r"Atomic(Usize)?::fetch_add$")
+    @on(r"Atomic(Usize)?::fetch_(add|sub)$")
     def _at_fa(call):
         c = atomic_cell(call, call.argv[0])
+        op = call.norm.split("::")[-1]
+        if getattr(eng, "atomic_trace", False):
+            return traced(call, op, c, call.argv[1].e)
         old = eng.force(c, "int")
-        c.val = Int(old.e + call.argv[1].e, 64, False)
-        call.m.event("atomic", "fetch_add", c.name)
+        c.val = Int(old.e + call.argv[1].e if op == "fetch_add" else old.e - call.argv[1].e, 64, False)
+        call.m.event("atomic", op, c.name)
         return old
+
+    @on(r"Atomic(Usize)?::(compare_exchange|compare_exchange_weak)$")
+    def _at_cas(call):
+        c = atomic_cell(call, call.argv[0])
+        if getattr(eng, "atomic_trace", False):
+            rd = traced(call, "cas", c, call.argv[1].e, call.argv[2].e)
+            okb = eng.fresh_bool("cas.ok")
+            call.m.event("cas_result", str(rd.e), okb)
+            k = eng.decide(call.m, ("cas", call.fr.bb, len(call.m.trace)), [okb, z3.Not(okb)])
+            return mk_enum("Result", "Ok" if k == 0 else "Err", rd)
+        old = eng.force(c, "int")
+        k = eng.decide(call.m, ("cas", call.fr.bb), [old.e == call.argv[1].e, old.e != call.argv[1].e])
+        if k == 0:
+            c.val = call.argv[2]
+            return mk_enum("Result", "Ok", old)
+        return mk_enum("Result", "Err", old)
+
+    @on(r"Atomic(Usize)?::swap$")
+    def _at_swap(call):
+        c = atomic_cell(call, call.argv[0])
+        if getattr(eng, "atomic_trace", False):
+            return traced(call, "swap", c, call.argv[1].e)
+        old = eng.force(c, "int")
+        c.val = call.argv[1]
+        return old
+
+    @on(r"(^|::)(usize|num)::(saturating_add|wrapping_add|saturating_sub|wrapping_sub)$")
+    def _int_arith(call):
+        a, b = call.argv
+        name = call.norm.split("::")[-1]
+        if name == "wrapping_add":
+            return Int(a.e + b.e, 64, False)
+        if name == "wrapping_sub":
+            return Int(a.e - b.e, 64, False)
+        if name == "saturating_add":
+            return Int(z3.If(z3.BVAddNoOverflow(a.e, b.e, False), a.e + b.e, z3.BitVecVal(2 ** 64 - 1, 64)), 64, False)
+        return Int(z3.If(z3.UGE(a.e, b.e), a.e - b.e, z3.BitVecVal(0, 64)), 64, False)
 
     @on(r"Atomic(Usize)?::new$")
     def _at_new(call):
